@@ -129,7 +129,7 @@ class Aggregate:
         self.last_seed = r["seed"] if self.last_seed is None else max(self.last_seed, r["seed"])
         if r.get("grid"):
             self.grid.add(json.dumps(r["grid"], sort_keys=True))
-        if "trace" in r and len(self.samples) < 3 and not r["violations"]:
+        if "trace" in r and len(self.samples) < 4 and not r["violations"]:
             self.samples.append({"seed": r["seed"], "config": r["config"], "trace": _shorten_trace(r["trace"])})
 
 
@@ -172,7 +172,7 @@ def batch(prop, tier, base_seed, n_runs=None, budget_s=None, workers=None, out=s
                         break
                     seed = base_seed * 1_000_000 + nxt
                     cfg = cfgs[nxt % len(cfgs)]
-                    fut = ex.submit(_task, (prop, seed, cfg, tier, nxt < 3))
+                    fut = ex.submit(_task, (prop, seed, cfg, tier, nxt < 4))
                     inflight[fut] = seed
                     nxt += 1
                 if not inflight:
